@@ -20,10 +20,11 @@
     is C08's inventory), so the valid request that follows any history gets the answer it would
     get on a fresh server.
 
-  Not modelled here: the accept loop itself (`for stream in listener.incoming()`; since fix F13 an
-  accept error or a connection without peer address is skipped with `continue` instead of ending
-  the loop) and connections that never send nor close (they keep their worker by design: no read
-  timeout).  Both are exercised on the real binary by props/c06_socket.py.
+  The accept loop (`for stream in listener.incoming()`; since fix F13 an accept error or a
+  connection without peer address is skipped with `continue` instead of ending the loop) is the
+  small stateless model `submitted` below; connections that never send nor close keep their worker
+  by design (no read timeout) and are not modelled.  Both are exercised on the real binary by
+  props/c06_socket.py.
 -/
 import Rws.Server
 import RwsProofs.C04
@@ -127,6 +128,73 @@ theorem C06_answer_independent_of_history (c : Conn) (hf : C04.FilesSmall c.ctx.
       C04.IsResponse status raw ∧ o.wire.writes = [raw] ∧ o.wire.received = raw ∧ o.result = .ok := by
   obtain ⟨o, status, raw, h, hr, hw, hrc, _, hiff⟩ := C04.C04_one_response c.ctx c.app c.alloc c.read hf
   exact ⟨o, status, raw, h, hr, hw, hrc, hiff.mpr hacc⟩
+
+/-! ## the accept loop of `Server::run`
+
+  `for boxed_stream in listener.incoming() { .. }`: an accept error is logged and skipped
+  (`continue`, fix F13 — before it the loop ended), a stream whose local or peer address cannot be
+  read is logged and skipped (the peer reset the connection while it waited in the listen queue),
+  every other stream is handed to `pool.execute`.  The loop has no state and no exit.
+  Tie: props/c06_socket.py drives the real binary through histories that contain all three kinds
+  (`rst-before-accept` bursts give streams without a peer address) and requires every valid
+  connection of the history and the probe after it to be answered. -/
+
+/-- what `listener.incoming()` yields -/
+inductive Incoming where
+  | acceptError
+  | stream (localAddrOk peerAddrOk : Bool) (t : Task)
+
+/-- the tasks `Server::run` hands to `pool.execute`, in order -/
+def submitted : List Incoming → List Task
+  | [] => []
+  | .acceptError :: r => submitted r
+  | .stream l p t :: r => if l && p then t :: submitted r else submitted r
+
+/-- the loop never ends early and keeps no state: what it does with a later part of the incoming
+    sequence does not depend on what came before (an accept error, a reset connection) -/
+theorem C06_accept_loop_has_no_state (a b : List Incoming) : submitted (a ++ b) = submitted a ++ submitted b := by
+  induction a with
+  | nil => rfl
+  | cons x a ih =>
+    cases x with
+    | acceptError => simpa [submitted] using ih
+    | stream l p t => by_cases h : (l && p) = true <;> simp [submitted, h, ih]
+
+/-- every connection whose addresses can be read is handed to the pool, whatever surrounds it -/
+theorem C06_every_connection_is_submitted (inc : List Incoming) (t : Task)
+    (h : Incoming.stream true true t ∈ inc) : t ∈ submitted inc := by
+  induction inc with
+  | nil => simp at h
+  | cons x r ih =>
+    simp only [List.mem_cons] at h
+    rcases h with h | h
+    · subst h; simp [submitted]
+    · have := ih h
+      cases x with
+      | acceptError => simpa [submitted] using this
+      | stream l p u => by_cases hh : (l && p) = true <;> simp [submitted, hh, this]
+
+/-- … and nothing else is: the pool only ever runs jobs of accepted connections, each once per occurrence -/
+theorem C06_submitted_are_connections (inc : List Incoming) (t : Task) (h : t ∈ submitted inc) :
+    Incoming.stream true true t ∈ inc := by
+  induction inc with
+  | nil => simp [submitted] at h
+  | cons x r ih =>
+    cases x with
+    | acceptError => simp only [submitted] at h; exact List.mem_cons_of_mem _ (ih h)
+    | stream l p u =>
+      by_cases hh : (l && p) = true
+      · simp only [submitted, hh, if_true, List.mem_cons] at h
+        rcases h with h | h
+        · subst h
+          have hl : l = true := by cases l <;> simp_all
+          have hp : p = true := by cases p <;> simp_all
+          subst hl; subst hp; exact List.mem_cons_self
+        · exact List.mem_cons_of_mem _ (ih h)
+      · simp only [submitted, hh] at h; exact List.mem_cons_of_mem _ (ih (by simpa using h))
+
+example : submitted [.acceptError, .stream true false 1, .stream true true 2, .acceptError, .stream false true 3, .stream true true 4] = [2, 4] := by
+  decide
 
 /-! ## non-vacuity -/
 
